@@ -221,7 +221,9 @@ func deepCastAt(val Value, typ ast.Type, span errors.Span, allowCasts bool, path
 		// otherwise, the inner type must also match
 		return deepCastAt(*opt.Inner, optType, span, allowCasts, path+"<option-inner>")
 	case ClosureValueKind, FunctionValueKind, BuiltinFunctionValueKind:
-		panic("Unreachable, the analyzer prevents this")
+		// The analyzer only refuses a function type at the top of a cast: below a list, an object or an option
+		// a function value can still reach this point. Its signature cannot be validated at runtime.
+		return nil, castErr(path, fmt.Sprintf("Incompatible values: a value of type '%s' is not compatible with a value of type '%s'", val.Kind(), typ), span)
 	case NullValueKind:
 		switch typ.Kind() {
 		case ast.NullTypeKind:
